@@ -547,15 +547,22 @@ impl Report {
         if sr.states < g.min_states {
             self.machinery.push(format!("{tag}: vacuity guard: {} states < required {}", sr.states, g.min_states));
         }
+        // The exact tier runs the implementation over the rationals. An implementation that is correct but takes a square
+        // root, halves an angle or reads a float constant where the present one does not leaves that field (DomainExit):
+        // those cases are inconclusive, not wrong, and the float tiers still judge the same inputs. So in tier X a
+        // shortfall that goes together with domain exits degrades the exploration - it is recorded, loudly - and is not
+        // a machinery error; without domain exits the guards are as strict as anywhere.
+        let degraded = sr.tier == "X" && sr.inconclusive > 0;
+        let mut complaints: Vec<String> = Vec::new();
         for (b, n) in &g.require {
             let hit = sr.branches.get(b).copied().unwrap_or(0);
             if hit < *n {
-                self.machinery.push(format!("{tag}: vacuity guard: branch '{b}' hit {hit} < required {n}"));
+                complaints.push(format!("{tag}: vacuity guard: branch '{b}' hit {hit} < required {n}"));
             }
         }
         let frac = if sr.states > 0 { sr.inconclusive as f64 / sr.states as f64 } else { 0.0 };
         if frac > g.max_inconclusive + 1e-12 {
-            self.machinery.push(format!(
+            complaints.push(format!(
                 "{tag}: {} of {} cases inconclusive ({:.1}% > allowed {:.1}%): {:?}",
                 sr.inconclusive,
                 sr.states,
@@ -565,7 +572,15 @@ impl Report {
             ));
         }
         if sr.distinct < g.min_distinct {
-            self.machinery.push(format!("{tag}: vacuity guard: {} distinct outcomes < required {}", sr.distinct, g.min_distinct));
+            complaints.push(format!("{tag}: vacuity guard: {} distinct outcomes < required {}", sr.distinct, g.min_distinct));
+        }
+        for c in complaints {
+            if degraded {
+                eprintln!("NOTE {}: exact tier degraded (the implementation leaves the rational field; float tiers unaffected): {c}", self.property);
+                self.notes.push(format!("exact tier degraded, not judged in full: {c}"));
+            } else {
+                self.machinery.push(c);
+            }
         }
     }
 
